@@ -182,7 +182,7 @@ type Unknown []byte
 
 // DecodeBinary implements io.Serializable.
 func (u *Unknown) DecodeBinary(br *io.BinReader) {
-	*u = br.ReadVarBytes()
+	*u = br.ReadVarBytes(MaxDataSize)
 }
 
 // EncodeBinary implements io.Serializable.
